@@ -144,6 +144,9 @@ func init() {
 	// the flows add their change output with Tx.change: what it charges
 	addRule("C20", rule{name: "G-chg", run: ruleGChg})
 	addRule("C18", rule{name: "L-atomic", run: ruleLAtomic})
+	// the library's tokeniser, per iteration (header sizes, truncation, part and remainder bounds)
+	addRule("C13", rule{name: "T-tok", run: ruleTTok})
+	addRule("C14", rule{name: "T-tok", run: ruleTTok})
 	addRule("C13", rule{name: "T-asm", run: ruleTAsmReader})
 	addRule("C15", rule{name: "T-b58", run: ruleTB58})
 	// what a codec function hands back is its own (no buffer shared between calls)
